@@ -89,9 +89,14 @@ func genRelExp(t *rapid.T, x h.Spec, ylen int, p uint) int64 {
 	return clampExp(e)
 }
 
-func genC01base(t *rapid.T) C01Case {
-	c := C01Case{}
-	c.Op = rapid.SampledFrom([]string{"add", "add", "sub", "sub", "mul", "mul", "quo", "quo", "quo", "set", "setprec", "neg", "abs"}).Draw(t, "op")
+func genC01base(t *rapid.T) C01Case { return genC01op(t, "") }
+
+// genC01op draws a case for the given operation ("" = any).
+func genC01op(t *rapid.T, op string) C01Case {
+	c := C01Case{Op: op}
+	if op == "" {
+		c.Op = rapid.SampledFrom([]string{"add", "add", "sub", "sub", "mul", "mul", "quo", "quo", "quo", "set", "setprec", "neg", "abs"}).Draw(t, "op")
+	}
 	c.M = h.GenMode(t, "zmode")
 	maxD := maxOperandDigits()
 	shape := rapid.IntRange(0, 9).Draw(t, "shape")
@@ -124,6 +129,35 @@ func genC01base(t *rapid.T) C01Case {
 		}
 		return c
 	case "add", "sub":
+		if rapid.IntRange(0, 11).Draw(t, "decade") == 0 {
+			// an exact power of ten minus something of about half a unit of the result's last place: the difference
+			// drops into the decade below, the rounding position moves down by one, and the decision (tie, just below,
+			// just above) hangs on digits of the small operand one to several words further down
+			p := rapid.IntRange(1, 80).Draw(t, "dc.p")
+			k := int64(rapid.IntRange(-40, 40).Draw(t, "dc.k"))
+			z := strings.Repeat("0", rapid.IntRange(0, 60).Draw(t, "dc.z"))
+			n := strings.Repeat("9", rapid.IntRange(1, 60).Draw(t, "dc.n"))
+			sd := rapid.SampledFrom([]string{"5", "5" + z + "1", "4" + n, "4" + n + "8", "5" + z + "0003", "50" + z + "7", "49" + n, "1", "9" + n}).Draw(t, "dc.s")
+			// the result 10^k - s has exponent k and p digits above its rounding position: s starts at digit p+1
+			small := h.Spec{F: "f", D: strings.TrimRight(sd, "0"), E: k - int64(p), Neg: true, M: h.GenMode(t, "dc.sm")}
+			if rapid.IntRange(0, 3).Draw(t, "dc.off") == 0 {
+				small.E += int64(rapid.IntRange(-2, 1).Draw(t, "dc.offv"))
+			}
+			small.P = h.GenPrecFor(t, "dc.sp", len(small.D))
+			big := h.Spec{F: "f", D: "1", E: k + 1, M: h.GenMode(t, "dc.bm")}
+			big.P = h.GenPrecFor(t, "dc.bp", 1)
+			if rapid.Bool().Draw(t, "dc.neg") {
+				big.Neg, small.Neg = true, false
+			}
+			if c.Op == "sub" {
+				small.Neg = !small.Neg
+			}
+			c.X, c.Y, c.P = big, small, uint(p)
+			if rapid.Bool().Draw(t, "dc.swap") && c.Op == "add" {
+				c.X, c.Y = c.Y, c.X
+			}
+			return c
+		}
 		if h.Rare(t, "far", 60) {
 			// one addend tens of thousands of digits below the other (far beyond any "negligible" threshold a fast
 			// path might use): the result is the large one, nudged by the sign of the small one
@@ -608,7 +642,7 @@ func checkC01(c C01Case, o *h.Obs) *h.Fail {
 	return nil
 }
 
-const ruleC01 = "rapid-generated (op, operands, receiver precision, mode) for add/sub/mul/quo/set/setprec/neg/abs: operands from word-patterned digit generators (0, 10^19-1, 5*10^18, 10^k, 10^k-1 words, uniform filler), result-directed constructions (chosen exact sum split into addends; x=q*y(+r) with q carrying a tie / all-nines / just-above / just-below pattern at the precision), short operands with long terminating quotients (divisors 2^a 5^b, a up to 2600, the receiver holding the whole expansion or a few digits less), near-total cancellation, exponents at both ends of the int32 range, zero addends, an addend 4096 .. 140000 digits below the other (a few per run: 2^20 .. 2^27 digits below), dividends of 19500-24000 digits against short divisors (random, or an exact multiple of the divisor followed by zeros and one stray digit anywhere in the tail, the mantissa zero-padded below it), receivers aliased to an operand, about one case in 4000 with operands or precisions of 32768..131072 digits; oracle = math/big exact result rounded once by the reference Round (range rule included), compared on sign, digits, exponent read back through BitsExp; operands that are not the receiver must be unchanged; in a third of the cases the receiver is read again after a fixed batch of unrelated divisions, products and a square root on private variables (pooled scratch buffers cycled) and must not have changed. Non-trivial = the model result is inexact or left the finite range (rounding, overflow, underflow happened); distinct = distinct case encodings. Bounds: exponent gap of sums <= 600 (quick) / 6000 (thorough) digits, Quo precision <= 2000 / 40000, operands <= 2500 / 20000 digits."
+const ruleC01 = "rapid-generated (op, operands, receiver precision, mode) for add/sub/mul/quo/set/setprec/neg/abs: operands from word-patterned digit generators (0, 10^19-1, 5*10^18, 10^k, 10^k-1 words, uniform filler), result-directed constructions (chosen exact sum split into addends; x=q*y(+r) with q carrying a tie / all-nines / just-above / just-below pattern at the precision), short operands with long terminating quotients (divisors 2^a 5^b, a up to 2600, the receiver holding the whole expansion or a few digits less), a power of ten minus about half a unit of the result's last place (the difference drops into the decade below; tie / just below / just above decided one to several words further down), near-total cancellation, exponents at both ends of the int32 range, zero addends, an addend 4096 .. 140000 digits below the other (a few per run: 2^20 .. 2^27 digits below), dividends of 19500-24000 digits against short divisors (random, or an exact multiple of the divisor followed by zeros and one stray digit anywhere in the tail, the mantissa zero-padded below it), receivers aliased to an operand, about one case in 4000 with operands or precisions of 32768..131072 digits; oracle = math/big exact result rounded once by the reference Round (range rule included), compared on sign, digits, exponent read back through BitsExp; operands that are not the receiver must be unchanged; in a third of the cases the receiver is read again after a fixed batch of unrelated divisions, products and a square root on private variables (pooled scratch buffers cycled) and must not have changed. Non-trivial = the model result is inexact or left the finite range (rounding, overflow, underflow happened); distinct = distinct case encodings. Bounds: exponent gap of sums <= 600 (quick) / 6000 (thorough) digits, Quo precision <= 2000 / 40000, operands <= 2500 / 20000 digits."
 
 var propC01 = &h.Prop[C01Case]{ID: "C01", Rule: ruleC01, Gen: genC01, Check: checkC01, Matchers: map[string]func(C01Case) bool{}}
 
